@@ -1,4 +1,7 @@
 import Chewing.Proofs.Persist
+import Chewing.Proofs.PersistCrash
+import Chewing.Proofs.PersistEditor
+import Chewing.Proofs.PersistSql
 /-!
 # C10 — User-dictionary changes are durable; the file is replaced atomically
 
@@ -21,12 +24,17 @@ power loss (no directory fsync), other processes writing the same directory.
 
 Statement → theorems.  "the file at the path is still a complete, loadable dictionary holding either
 the previous or the new contents, if the process dies at any point": `atomic`, `atomic_step`,
-`atomic_old_or_new`, `crash_enabled`, `atomic_after_crash`.  "after a change has been accepted and the
+`atomic_old_or_new`, `crash_enabled`, `atomic_after_crash`, `crash_point` (old / new relative to the in-flight
+writer, and live after a prefix of the history), `file_is_prefix_live`, `file_is_prefix_spec`; reopening after a
+death or a close, over any number of process lifetimes: `reopen_prefix_consistent`, `reopen_durable`,
+`next_session_starts`.  The SQLite back end (no writer thread, no temp file): `Sql.sql_prefix`,
+`Sql.sql_durable_on_return`, `Sql.sql_crash_keeps_committed` over a relational step model, SQLite's transaction
+guarantee itself being trusted.  "after a change has been accepted and the
 dictionary is flushed and closed normally, reopening the file shows that change, whatever the timing
 of the writer": `change_shows` (an accepted change is live) + `live_stable` (nothing else alters what
 is live) + `adopt_safe` + `durable_full` (after close the file holds what is live); in one statement,
-for the tree with both repairs: `durable_spec`.  The editor's call pattern: `editor_durable`,
-`editor_atomic`, `editor_never_adopts`.
+for the tree with both repairs: `durable_spec`.  The editor's call pattern over `Layered`'s forwarding: `editor_durable`,
+`editor_durable_spec`, `editor_crash_prefix`, `editor_atomic`, `editor_never_adopts`.
 
 Finding F12 (DESIGN §9): on the code as found (`Cfg.joinFirst = false`) `DurableFull` is false —
 `durable_refuted`; repaired in the repository (`fix:` commit, `Drop` joins the writer first) and
@@ -251,6 +259,81 @@ theorem spec_last_change (c0 : Content) (acts : List Act) (k : Key) (v : Val) :
   intro h
   simp [h, setC]
 
+/-! ## crash points: old or new, and prefix-consistent -/
+
+/-- after ANY action list (any schedule, process death anywhere or nowhere) the file at the path is a
+    complete dictionary whose contents were the live contents of the dictionary after some prefix of
+    that list: never a mixture of two moments, never anything that was not live at some moment -/
+theorem file_is_prefix_live (cfg : Cfg) (c0 : Content) (t0 : Option FileC) (acts : List Act) (w : World)
+    (h : run cfg (init c0 t0) acts = some w) :
+    ∃ c, readPath w.fs = some c ∧ LiveOfPrefix cfg (init c0 t0) acts c := by
+  obtain ⟨c, hc⟩ := atomic cfg w ⟨c0, t0, acts, h⟩
+  exact ⟨c, readPath_eq_some.mpr hc, (hist_init h).path c hc⟩
+
+/-- … with both repairs in place: exactly the accepted changes of a prefix of the history -/
+theorem file_is_prefix_spec (cfg : Cfg) (hrv : cfg.revive = true) (hj : cfg.joinFirst = true) (c0 : Content)
+    (t0 : Option FileC) (acts : List Act) (w : World) (h : run cfg (init c0 t0) acts = some w) :
+    ∃ pre, pre <+: acts ∧ readPath w.fs = some (spec c0 pre) := by
+  obtain ⟨c, hc, pre, wp, hpre, hrun, hl⟩ := file_is_prefix_live cfg c0 t0 acts w h
+  refine ⟨pre, hpre, ?_⟩
+  rw [hc, ← hl, live_tracks cfg hrv hj c0 t0 pre wp hrun]
+
+/-- CRASH-POINT THEOREM.  The process dies after an arbitrary action list `acts` (any foreground
+    history, the writer at any progress point, any part of `Drop`).  Then (1) death changed no file,
+    (2) the file at the path loads, (3) its contents were live after some prefix of `acts`, and
+    (4) relative to an in-flight writer it holds the OLD contents (what the path held when the
+    writer was spawned) strictly before the rename step and the NEW contents (the writer's complete
+    snapshot) from the rename step on. -/
+theorem crash_point (cfg : Cfg) (c0 : Content) (t0 : Option FileC) (acts : List Act) (w : World)
+    (h : run cfg (init c0 t0) (acts ++ [.crash]) = some w) :
+    w.crashed = true ∧
+    ∃ w1, run cfg (init c0 t0) acts = some w1 ∧ w.fs = w1.fs ∧ w.writer = w1.writer ∧
+    ∃ c, readPath w.fs = some c ∧ LiveOfPrefix cfg (init c0 t0) acts c ∧
+      ∀ wr, w.writer = some wr →
+        (wr.pc.idx < PC.renamed.idx ∧ wr.old = some (.complete c)) ∨
+        (PC.renamed.idx ≤ wr.pc.idx ∧ c = wr.snap) := by
+  rw [run_append] at h
+  cases h1 : run cfg (init c0 t0) acts with
+  | none => rw [h1] at h; cases h
+  | some w1 =>
+    rw [h1] at h
+    have hs := run_one h
+    have hw : w = { w1 with crashed := true } := by
+      unfold step at hs
+      split at hs
+      · cases hs
+      · exact (Option.some.inj hs).symm
+    subst hw
+    refine ⟨rfl, w1, rfl, rfl, rfl, ?_⟩
+    obtain ⟨c, hc, hp⟩ := file_is_prefix_live cfg c0 t0 acts w1 h1
+    refine ⟨c, hc, hp, ?_⟩
+    intro wr hwr
+    have hpath := readPath_eq_some.mp hc
+    rcases atomic_old_or_new (cfg := cfg) (w := w1) ⟨c0, t0, acts, h1⟩ hwr with ⟨hlt, ho⟩ | ⟨hge, hn⟩
+    · exact Or.inl ⟨hlt, by rw [← ho]; exact hpath⟩
+    · exact Or.inr ⟨hge, complete_inj (hpath.symm.trans hn)⟩
+
+/-- REOPENING AFTER A CRASH.  Process lifetimes over the same directory, each ended by a normal close
+    or by death at an arbitrary point, the next one opening whatever files the previous one left
+    (including a leftover temp file): the dictionary the last one leaves holds exactly the accepted
+    changes of a prefix of every lifetime, in order — a prefix-consistent map. -/
+theorem reopen_prefix_consistent (cfg : Cfg) (hrv : cfg.revive = true) (hj : cfg.joinFirst = true)
+    (ss : List (List Act)) (c0 c : Content) (t0 t : Option FileC) (h : runSessions cfg c0 t0 ss = some (c, t)) :
+    ∃ pres, PrefixEach pres ss ∧ c = spec c0 pres.flatten :=
+  sessions_prefix hrv hj h
+
+/-- … and when every lifetime ends with a normal close, nothing at all is lost across lifetimes -/
+theorem reopen_durable (cfg : Cfg) (hrv : cfg.revive = true) (hj : cfg.joinFirst = true)
+    (ss : List (List Act)) (c0 c : Content) (t0 t : Option FileC) (h : runSessions cfg c0 t0 ss = some (c, t))
+    (hc : AllClosed cfg c0 t0 ss) : c = spec c0 ss.flatten :=
+  sessions_durable hrv hj h hc
+
+/-- a lifetime that ended (closed or died) always leaves a loadable file: the next one can start -/
+theorem next_session_starts (cfg : Cfg) (c0 : Content) (t0 : Option FileC) (s : List Act) (w : World)
+    (h : run cfg (init c0 t0) s = some w) : ∃ c, readPath w.fs = some c :=
+  let ⟨c, hc, _⟩ := file_is_prefix_live cfg c0 t0 s w h
+  ⟨c, hc⟩
+
 /-! ## the editor -/
 
 /-- whatever the editor does (learn / unlearn, `reopen(); flush()` after keys that changed the
@@ -261,6 +344,25 @@ theorem editor_durable (cfg : Cfg) (hj : cfg.joinFirst = true) (c0 : Content) (t
     (hc : e.w.phase = .closed) : e.w.fs .path = some (.complete e.w.buf.live) := by
   obtain ⟨acts, hr⟩ := edRun_refines h
   exact durable_full cfg hj c0 t0 acts e.w hr hc
+
+/-- … in the editor's own terms: once the editor has been dropped, the file holds exactly what the
+    editor learned and unlearned (`edSpec`: `learn_phrase` sets / adds, `unlearn_phrase` removes; key
+    events, `dirty_level`, `reopen`, `flush` and the writer's schedule do not appear in it) -/
+theorem editor_durable_spec (cfg : Cfg) (hrv : cfg.revive = true) (hj : cfg.joinFirst = true) (c0 : Content)
+    (t0 : Option FileC) (eacts : List EdAct) (e : EdWorld)
+    (h : edRun cfg { w := init c0 t0, dirtyLevel := 0 } eacts = some e) (hc : e.w.phase = .closed) :
+    e.w.fs .path = some (.complete (edSpec c0 eacts)) := by
+  have hr := edRun_trace h
+  rw [← spec_edTrace h c0]
+  exact durable_spec cfg hrv hj c0 t0 _ e.w hr hc
+
+/-- … and if the process dies at any point of an editor session instead, the file holds what the
+    editor had learned and unlearned up to some earlier moment of the session -/
+theorem editor_crash_prefix (cfg : Cfg) (hrv : cfg.revive = true) (hj : cfg.joinFirst = true) (c0 : Content)
+    (t0 : Option FileC) (eacts : List EdAct) (e : EdWorld)
+    (h : edRun cfg { w := init c0 t0, dirtyLevel := 0 } eacts = some e) :
+    ∃ pre, pre <+: edTrace cfg { w := init c0 t0, dirtyLevel := 0 } eacts ∧ readPath e.w.fs = some (spec c0 pre) :=
+  file_is_prefix_spec cfg hrv hj c0 t0 _ e.w (edRun_trace h)
 
 /-- … and the atomicity invariant holds throughout -/
 theorem editor_atomic (cfg : Cfg) (c0 : Content) (t0 : Option FileC) (eacts : List EdAct) (e : EdWorld)
@@ -304,4 +406,98 @@ example : ∃ w, run { revive := true, joinFirst := true } (init (setC (fun _ =>
     valAt (w.fs .path) 0 = some (some 7) ∧ valAt (w.fs .tmp) 0 = some (some 1) :=
   ⟨_, rfl, rfl, rfl, rfl⟩
 
+/-- two lifetimes: the first dies with the temp file complete but not renamed (change A lost, which
+    was never flushed to completion), the second opens the old file next to the leftover temp file,
+    makes change B and closes normally: the file holds B and not A -/
+example : ∃ c t, runSessions { revive := true, joinFirst := true } (fun _ => none) none
+    [[.update 0 1, .flush, .w, .w, .w, .w, .w, .crash],
+     [.update 1 2, .close, .d, .d, .d, .w, .w, .w, .w, .w, .w, .w, .w, .w, .d]] = some (c, t) ∧
+    c 0 = none ∧ c 1 = some 2 :=
+  ⟨_, _, rfl, rfl, rfl⟩
+
 end Chewing.C10
+
+/-! ## the SQLite back end (feature `sqlite`)
+
+Stated over the relational step model `Chewing.Model.PersistSql`.  TRUSTED: SQLite's transaction
+guarantee (a committed transaction survives process death, an uncommitted one leaves no trace; WAL,
+`synchronous = NORMAL`).  Proved: what libchewing adds on top — one call = one transaction, so the
+committed relations are at every moment, and after death at any statement boundary, exactly the calls
+that have returned; no `flush` and no close is needed. -/
+
+namespace Chewing.C10.Sql
+open Chewing.PersistSql
+
+/-- after ANY list of micro-steps (calls entered, statements run, commits, process death anywhere)
+    what a new connection reads is exactly the effect of the calls that have returned, in order;
+    these are all the calls entered except possibly the one that was in progress at death -/
+theorem sql_prefix (r0 : Rel) (acts : List Act) (w : World) (h : run (init r0) acts = some w) :
+    w.db = spec r0 w.returned ∧
+    (w.entered = w.returned ∨ ∃ c, w.entered = w.returned ++ [c]) := by
+  have hi := sinv_run (sinv_init r0) h
+  refine ⟨hi.db, ?_⟩
+  cases ht : w.tx with
+  | some t => exact Or.inr ⟨t.call, (hi.open_ t ht).1⟩
+  | none =>
+    cases hc : w.crashed with
+    | false => exact Or.inl (hi.idle ht hc)
+    | true => exact hi.dead ht hc
+
+/-- durable at once: when a call returns, its whole effect is in the committed relations -/
+theorem sql_durable_on_return (r0 : Rel) (acts : List Act) (w w' : World) (t : Tx)
+    (h : run (init r0) acts = some w) (ht : w.tx = some t) (hs : step w .commit = some w') :
+    w'.db = applyCall w.db t.call ∧ w'.returned = w.returned ++ [t.call] := by
+  have hi := sinv_run (sinv_init r0) h
+  have h0 := (hi.open_ t ht).2
+  unfold step at hs
+  split at hs
+  · cases hs
+  · simp only [ht] at hs
+    cases htd : t.todo with
+    | cons s rest => rw [htd] at hs; cases hs
+    | nil =>
+      rw [htd] at hs
+      have hs := Option.some.inj hs
+      subst hs
+      rw [htd] at h0
+      exact ⟨h0, rfl⟩
+
+/-- process death loses the open transaction and nothing else -/
+theorem sql_crash_keeps_committed (w w' : World) (hs : step w .crash = some w') :
+    w'.db = w.db ∧ w'.returned = w.returned ∧ w'.tx = none := by
+  unfold step at hs
+  split at hs
+  · cases hs
+  · have hs := Option.some.inj hs
+    subst hs
+    exact ⟨rfl, rfl, rfl⟩
+
+/-- `flush` (`wal_checkpoint`) and `reopen` change no relation -/
+theorem sql_flush_reopen_noop (r : Rel) : applyCall r .flush = r ∧ applyCall r .reopen = r := ⟨rfl, rfl⟩
+
+/-- what the calling code sees after an accepted change -/
+theorem sql_change_shows (r : Rel) (k : Key) (f uf t : Nat) :
+    (view (applyCall r (.add k f)) k = some (f, 0)) ∧
+    (view (applyCall r (.remove k)) k = none) ∧
+    (∃ v, view (applyCall r (.update k f uf t)) k = some v) := by
+  refine ⟨?_, ?_, ?_⟩
+  · simp [applyCall, plan, exec, view]
+  · simp [applyCall, plan, exec, view]
+  · simp only [applyCall, plan]
+    split
+    · next x id hd =>
+      simp only [List.foldl, exec, view, hd]
+      cases hu : r.user id with
+      | none => exact ⟨(x, 0), by simp⟩
+      | some p => exact ⟨(max x uf, p.2), by simp⟩
+    · simp [exec, view]
+
+/-- non-vacuity: an `update_phrase` of a new phrase dies between its two `INSERT`s: the first call's
+    effect is there, nothing of the second -/
+example : ∃ w, run (init { dict := fun _ => none, user := fun _ => none, maxId := 0 })
+    [.call (.add 0 5), .stmt, .commit, .call (.update 1 1 9 7), .stmt, .crash] = some w ∧
+    view w.db 0 = some (5, 0) ∧ view w.db 1 = none ∧ w.db.user 1 = none ∧ w.returned = [.add 0 5] :=
+  ⟨_, rfl, rfl, rfl, rfl, rfl⟩
+
+end Chewing.C10.Sql
+
